@@ -51,7 +51,7 @@ def required(tier):
                         'refused:lon', 'refused:pressure', 'field:uniform', 'field:affine',
                         'time-axis:yes', 'time-axis:no', 'heading:cardinal',
                         'heading:diagonal', 'heading:generic', 'azimuth:explicit',
-                        'azimuth:from-track-point'],
+                        'azimuth:from-track-point', 'history:same-hour-different-date'],
             'evaluations': 800}
 
 
@@ -107,6 +107,26 @@ def write_file(path: Path, fld: Field, rng):
     ds.close()
     return (float(lats.min()), float(lats.max()), float(lons.min()), float(lons.max()),
             float(levels.min()), float(levels.max()))
+
+
+def write_file_same_grid(path, fld, lat_lo, lat_hi, lon_lo, lon_hi):
+    import numpy as np
+    import xarray as xr
+
+    levels = np.array([1000., 900., 800., 700., 600., 500., 400., 300., 250., 200., 150.])
+    lats = np.linspace(lat_lo, lat_hi, 9)
+    lons = np.linspace(lon_lo, lon_hi, 11)
+    P, LA, LO = np.meshgrid(levels, lats, lons, indexing='ij')
+    hours = np.arange(24)
+    u = np.stack([fld.uv(P, LA, LO, h)[0] * np.ones_like(P) for h in hours])
+    v = np.stack([fld.uv(P, LA, LO, h)[1] * np.ones_like(P) for h in hours])
+    times = np.datetime64('2024-03-06T00:00') + hours * np.timedelta64(1, 'h')
+    dims = ('valid_time', 'pressure_level', 'latitude', 'longitude')
+    ds = xr.Dataset({'u': (dims, u), 'v': (dims, v), 't': (dims, np.full_like(u, 250.0))},
+                    coords={'valid_time': times, 'pressure_level': levels, 'latitude': lats,
+                            'longitude': lons})
+    ds.to_netcdf(path)
+    ds.close()
 
 
 def run_shard(spec, rec):
@@ -268,6 +288,20 @@ def run_shard(spec, rec):
                                        'rotated together', {'g1': g1, 'g2': g2, **case})
                     rec.cls('sub:rotation')
                     wx2._main_ds and wx2._main_ds.close()
+                # ---- one Weather object, same hour of day on two different dates -------------
+                if timed:
+                    fld_b = Field(rng, 'uniform', True)
+                    write_file_same_grid(d / '20240306.nc', fld_b, lat_lo, lat_hi, lon_lo, lon_hi)
+                    hour = rng.randint(0, 23)
+                    la, lo_ = (lat_lo + lat_hi) / 2, (lon_lo + lon_hi) / 2
+                    for day, f in (('05', fld), ('06', fld_b), ('05', fld), ('06', fld_b)):
+                        tq = pd.Timestamp(f'2024-03-{day}T{hour:02d}:10:00Z')
+                        uq, vq = f.uv(500.0, la, lo_, hour)
+                        gq = query(wx, tq, la, lo_, h_of_p(500.0), 180.0, 45.0, True)
+                        judge(gq, 180.0, 45.0, uq, vq, 'same Weather object, same hour, '
+                              'different date (heading 45: independent of the known defect)',
+                              {'k': k, 'day': day, 'hour': hour, 'u': uq, 'v': vq})
+                    rec.cls('history:same-hour-different-date')
                 # ---- refusals outside the domain --------------------------------------------
                 t = pd.Timestamp('2024-03-05T10:00:00Z')
                 mid = ((lat_lo + lat_hi) / 2, (lon_lo + lon_hi) / 2, h_of_p(500.0))
